@@ -124,11 +124,37 @@ class State:
         return [(k, v[0]) for k, v in self.memo.items()]
 
 
+def _container_uses(root):
+    """ids of Name nodes used as containers / objects (subscripted, method
+    receiver, membership target, len()/iter() argument): reading through such
+    a local reads the live object, not a value copied at binding time."""
+    out = set()
+    for n in ast.walk(root):
+        if isinstance(n, ast.Subscript) and isinstance(n.value, ast.Name):
+            out.add(id(n.value))
+        elif isinstance(n, ast.Attribute) and isinstance(n.value, ast.Name):
+            out.add(id(n.value))
+        elif isinstance(n, ast.Compare):
+            for op, c in zip(n.ops, n.comparators):
+                if isinstance(op, (ast.In, ast.NotIn)) and isinstance(
+                        c, ast.Name):
+                    out.add(id(c))
+        elif isinstance(n, ast.Call) and isinstance(n.func, ast.Name) \
+                and n.func.id in ('len', 'iter', 'list', 'tuple', 'set',
+                                  'sorted', 'any', 'all', 'next', 'bool',
+                                  'frozenset', 'reversed', 'enumerate'):
+            for a in n.args:
+                if isinstance(a, ast.Name):
+                    out.add(id(a))
+    return out
+
+
 class _Subst(ast.NodeTransformer):
-    def __init__(self, walker, state):
+    def __init__(self, walker, state, container_ids=()):
         self.w = walker
         self.st = state
         self.stamps = set()
+        self.container_ids = container_ids
 
     def visit_Name(self, node):
         if isinstance(node.ctx, ast.Load):
@@ -140,6 +166,21 @@ class _Subst(ast.NodeTransformer):
                     lk = self._lk(node.id)
                     self.stamps.add((lk, self.st.versions.get(lk, 0)))
                     return node
+                if id(node) in self.container_ids:
+                    # an alias of a live object: what is read through it is
+                    # read now (drop the bind-time versions of its chains)
+                    new = copy.deepcopy(sv.node)
+                    chains = set()
+                    for x in ast.walk(new):
+                        if isinstance(x, ast.Attribute):
+                            d = dotted(x)
+                            if d:
+                                chains.add(d)
+                    self.stamps -= {p for p in self.stamps if p[0] in chains}
+                    self.stamps |= {(c, self.st.versions.get(c, 0))
+                                    for c in chains}
+                    self.stamps |= {p for p in sv.stamp if p[0] not in chains}
+                    return new
                 return copy.deepcopy(sv.node)
             c = self.w.const_of(self.st, node.id)
             if c is not None:
@@ -179,6 +220,15 @@ class _Subst(ast.NodeTransformer):
         return node
 
     def visit_Lambda(self, node):
+        return node
+
+    def visit_IfExp(self, node):
+        node = self.generic_visit(node)
+        t = fold_truth(node.test)
+        if t is True:
+            return node.body
+        if t is False:
+            return node.orelse
         return node
 
     def visit_ListComp(self, node):
@@ -393,8 +443,9 @@ class Walker:
     def canon(self, st, node):
         if node is None:
             return SymVal(ast.Constant(None))
-        sub = _Subst(self, st)
-        new = sub.visit(copy.deepcopy(node))
+        cp = copy.deepcopy(node)
+        sub = _Subst(self, st, _container_uses(cp))
+        new = sub.visit(cp)
         ast.fix_missing_locations(new)
         return SymVal(new, frozenset(sub.stamps))
 
@@ -428,6 +479,19 @@ class Walker:
                 if m is not None and any(dotted(d) == 'staticmethod'
                                          for d in m.node.decorator_list):
                     r = (m, c[1], None)
+        if r is None and isinstance(call.func, ast.Attribute) \
+                and call.func.attr.startswith('_') \
+                and not call.func.attr.startswith('__'):
+            # obj._private(...): a private method defined by exactly one
+            # class of this module (e.g. another instance of the same class)
+            mod = st.frame.func.module
+            owners = [c for c in mod.classes.values()
+                      if call.func.attr in c.methods]
+            if len(owners) == 1:
+                m = owners[0].methods[call.func.attr]
+                if not any(dotted(d) in ('staticmethod', 'classmethod')
+                           for d in m.node.decorator_list):
+                    r = (m, owners[0], self.canon(st, call.func.value))
         if r is None:
             return None
         name = r[0].name
